@@ -146,6 +146,50 @@ static void check_fir(int m, int n, CoefKind ck, int ik, bool cplx, vh::Rng& r) 
         }
     }
 
+    //---- direct form fed as a stream: the same input in frames of very different lengths (long, short, empty, long ...) must give
+    //the same sums - the filter started from rest once, not per call
+    if (n >= 4) {
+        arr_cmplx ys;
+        dl::FirFilterC fc(cplx ? h : arr_cmplx(h));
+        dl::FirFilterR fr(dl::real(h));
+        int pos = 0;
+        int turn = 0;
+        while (pos < n) {
+            int len;
+            switch (turn++ % 4) {
+            case 0: len = int(r.range(n / 4 + 1, n / 2 + 1)); break;   //long
+            case 1: len = int(r.range(1, std::max(1, n / 16)));  break;   //short
+            case 2: len = (r.coin() ? 0 : 1); break;                       //empty or single
+            default: len = int(r.range(1, std::max(2, n / 3))); break;
+            }
+            len = std::min(len, n - pos);
+            arr_cmplx fx(len);
+            for (int i = 0; i < len; ++i) {
+                fx[i] = x[pos + i];
+            }
+            if (cplx) {
+                ys |= fc.process(fx);
+            } else {
+                ys |= dl::complex(fr.process(dl::real(fx)));
+            }
+            pos += len;
+        }
+        vh::obs_add("direct_streams_in_uneven_frames");
+        bool ok = ys.size() == n;
+        int bad = -1;
+        for (int i = 0; ok && i < n; ++i) {
+            const ld err = ref::cabs(C{ys[i].re, ys[i].im} - yref[i]);
+            if (!(err <= std::max(8, m + 4) * ref::EPS * mag[i])) {
+                ok = false;
+                bad = i;
+            }
+        }
+        if (!ok) {
+            vh::violation(vh::fmt("C07/direct/stream_value/%s", cplx ? "complex" : "real"),
+                          cfg + vh::fmt(": fed in frames of uneven length (long, short, empty, ...) the output has %d samples and sample %d is not the convolution sum", ys.size(), bad));
+        }
+    }
+
     //---- FFT form
     dl::FftFilter ff = cplx ? dl::FftFilter(h) : dl::FftFilter(dl::real(h));
     const int blk = ff.block_size();
@@ -200,8 +244,20 @@ static void check_fir(int m, int n, CoefKind ck, int ik, bool cplx, vh::Rng& r) 
 
 static void check_xcorr(int n1, int n2, bool cplx, vh::Rng& r) {
     vh::begin_case("xcorr", "n1=%d n2=%d %s", n1, n2, cplx ? "complex" : "real");
-    const arr_cmplx a = make_input(r, n1, 0, cplx);
-    const arr_cmplx b = make_input(r, n2, 0, cplx);
+    arr_cmplx a = make_input(r, n1, int(r.below(3) == 0 ? r.below(4) : 0), cplx);
+    arr_cmplx b = make_input(r, n2, 0, cplx);
+    //the two sequences live on independent scales (the defining sum is bilinear, so its rounding error scales with |a||b|)
+    if (r.below(2) == 0) {
+        const double sa = std::pow(10.0, r.uni(-10, 10));
+        const double sb = std::pow(10.0, r.uni(-10, 10));
+        a *= sa;
+        b *= sb;
+        vh::obs_add("xcorr_pairs_on_different_scales");
+    }
+    if (norm2(a) == 0 || norm2(b) == 0) {
+        a[0] = cmplx_t{1, 0};
+        b[0] = cmplx_t{1, 0};
+    }
     arr_cmplx z;
     if (cplx) {
         z = dl::xcorr(a, b);
